@@ -85,7 +85,9 @@ def record_tree(root, lines, source_ids=None):
             whole = all(not l.strip() or l.lstrip().startswith('!') for l in lines[l0 - 1:l1])
         oid = 0
         if source_ids is not None and s is not None:
-            oid = source_ids.get(id(s), 0)
+            # a node that stays VALID keeps the very Source object; an invalidated one carries a clone, which is
+            # traced back by kind and original lines (when that is unambiguous)
+            oid = source_ids.get(id(s), 0) or source_ids.get((type(obj).__name__, l0, l1), 0)
         nodes.append({'par': par, 'kind': type(obj).__name__, 'st': st, 'l0': l0, 'l1': l1, 'oid': oid, 'whole': whole})
     return nodes, flat
 
@@ -145,8 +147,64 @@ def apply_edit(routine, target, op, literal=7):
         raise MachineryError(f'unknown edit {op}')
 
 
+RENAME_SUFFIX = '_zq'
+HISTORIES = ('replace', 'remove', 'subst', 'rename', 'replace_rename', 'remove_rename', 'rename_replace', 'rename_remove')
+
+
+def loop_variable(routine, name=None):
+    from loki import ir, FindNodes
+    for l in FindNodes(ir.Loop).visit(routine.body):
+        if name is None or str(l.variable.name).lower() == name:
+            return l.variable
+    return None
+
+
+def apply_rename(routine, name=None):
+    """Second kind of edit: rename a loop variable consistently in the specification and the body with ONE
+    SubstituteExpressions pass (invalidate_source=True). This changes the OWN expressions of containers (loop headers,
+    conditions) as well as leaf statements."""
+    from loki import SubstituteExpressions
+    var = loop_variable(routine, name)
+    if var is None:
+        raise F.NotApplicable('no loop variable to rename')
+    var = routine.variable_map.get(str(var.name).lower(), var)
+    sub = SubstituteExpressions({var: var.clone(name=str(var.name) + RENAME_SUFFIX)}, invalidate_source=True)
+    routine.spec = sub.visit(routine.spec)
+    routine.body = sub.visit(routine.body)
+    return str(var.name).lower()
+
+
+def own_users(oflat, name, routine):
+    """Original nodes (1-based indices) of the routine's specification and body whose OWN attributes / expressions mention
+    the variable (recording which nodes the rename touches; the first entry of the structural export is the image of the
+    node itself, without its children). Member routines and other units are not renamed."""
+    from loki import ir, ProgramUnit
+    pat = re.compile(r'\[' + re.escape(name) + r'[\] ]')
+    out = []
+    inside = {}
+    for k, (obj, par) in enumerate(oflat):
+        if obj is routine:
+            inside[k + 1] = True
+        elif isinstance(obj, ProgramUnit):
+            inside[k + 1] = False
+        else:
+            inside[k + 1] = inside.get(par, False)
+        if not inside[k + 1] or obj is routine:
+            continue
+        if not isinstance(obj, ir.Node) or isinstance(obj, (ir.Section, ir.CommentBlock, ir.Comment)):
+            continue
+        try:
+            img = T.export_ir(obj)[0]
+        except Exception:  # pylint: disable=broad-except
+            continue
+        if pat.search(img.lower()):
+            out.append(k + 1)
+    return out
+
+
 def edited_case(text, unit_name, pick, op, origin):
-    """Parse, edit one node of the named routine, print conservatively, record everything for TLC."""
+    """Parse, apply the history `op` (one or two edits, see HISTORIES) to the named routine, print conservatively, record
+    everything for TLC."""
     sf = parse(text)
     lines = text.split('\n')
     routine = sf[unit_name]
@@ -156,6 +214,8 @@ def edited_case(text, unit_name, pick, op, origin):
         s = getattr(obj, 'source', None)
         if s is not None:
             source_ids.setdefault(id(s), k + 1)
+            key = (type(obj).__name__, onodes[k]['l0'], onodes[k]['l1'])
+            source_ids[key] = 0 if key in source_ids else k + 1      # ambiguous (kind, lines) -> not traced
     keep = [getattr(o, 'source', None) for o, _ in oflat]   # keep the Source objects alive (ids must stay unique)
     cands = candidates(routine)
     if not cands:
@@ -164,15 +224,33 @@ def edited_case(text, unit_name, pick, op, origin):
     tidx = next((k + 1 for k, (o, _p) in enumerate(oflat) if o is target), 0)
     if not tidx:
         raise F.NotApplicable('target is not part of the recorded tree')
-    apply_edit(routine, target, op)
+    j = pick % len(cands)
+    touched, own = [], []
+    kind, target_text = type(target).__name__, (target.source.string or '')[:200]
+    for step in op.split('_'):
+        if step == 'rename':
+            var = loop_variable(routine)
+            if var is None:
+                raise F.NotApplicable('no loop variable to rename')
+            own = own_users(oflat, str(var.name).lower(), routine)
+            apply_rename(routine, str(var.name).lower())
+            touched += own
+            if op == 'rename':
+                kind, target_text = 'Loop', f'rename {var.name}'
+        else:
+            # an earlier rename pass rebuilt the tree: the target is the node at the same position
+            cur = candidates(routine)
+            if len(cur) != len(cands):
+                raise F.NotApplicable('candidate positions changed')
+            apply_edit(routine, cur[j], step)
+            touched.append(tidx)
     mark_units(sf, routine)
     out = sf.to_fortran(conservative=True)
     nodes, _flat = record_tree(sf.ir, lines, source_ids)
     del keep
-    case = {'orig': [T._ascii(l) for l in lines], 'onodes': onodes, 'nodes': nodes, 'touched': [tidx],
+    case = {'orig': [T._ascii(l) for l in lines], 'onodes': onodes, 'nodes': nodes, 'touched': sorted(set(touched)), 'own': own,
             'out': [T._ascii(l) for l in out.split('\n')], 'l0': 0, 'l1': 0}
-    return case, {'origin': origin, 'op': op, 'kind': type(target).__name__, 'unit': unit_name, 'pick': pick, 'text': text,
-                  'target_text': (target.source.string or '')[:200]}
+    return case, {'origin': origin, 'op': op, 'kind': kind, 'unit': unit_name, 'pick': pick, 'text': text, 'target_text': target_text}
 
 
 def unmodified_cases(text, origin):
@@ -184,7 +262,7 @@ def unmodified_cases(text, origin):
     olines = [T._ascii(l) for l in lines]
     cases, meta = [], []
     whole = sf.to_fortran(conservative=True)
-    cases.append({'orig': olines, 'onodes': [], 'nodes': [], 'touched': [], 'out': [T._ascii(l) for l in whole.split('\n')], 'l0': 1, 'l1': len(lines)})
+    cases.append({'orig': olines, 'onodes': [], 'nodes': [], 'touched': [], 'own': [], 'out': [T._ascii(l) for l in whole.split('\n')], 'l0': 1, 'l1': len(lines)})
     meta.append({'origin': origin, 'op': 'none', 'kind': 'Sourcefile', 'unit': '<file>', 'text': text})
     from loki import ProgramUnit
     for obj, _p in oflat:
@@ -192,7 +270,7 @@ def unmodified_cases(text, origin):
             continue
         out = fgen(obj, conservative=True)
         l0, l1 = int(obj.source.lines[0]), int(obj.source.lines[1] or obj.source.lines[0])
-        cases.append({'orig': olines, 'onodes': [], 'nodes': [], 'touched': [], 'out': [T._ascii(l) for l in out.split('\n')], 'l0': l0, 'l1': l1})
+        cases.append({'orig': olines, 'onodes': [], 'nodes': [], 'touched': [], 'own': [], 'out': [T._ascii(l) for l in out.split('\n')], 'l0': l0, 'l1': l1})
         meta.append({'origin': origin, 'op': 'none', 'kind': type(obj).__name__, 'unit': obj.name, 'text': text})
     return cases, meta
 
@@ -230,6 +308,32 @@ def spec_edit(prog, k, op, literal=7):
     return p2, k % len(assigns), before
 
 
+def spec_rename(prog, name='i'):
+    """The rename on the program the reference machine runs: the loop variable of the kernel, declaration and uses."""
+    p2 = copy.deepcopy(prog)
+    kernel = p2['units'][0]
+    if not any(s['s'] == 'do' and s['var'] == name for s in textual(kernel['body'])):
+        raise F.NotApplicable('the kernel has no loop over ' + name)
+    new = name + RENAME_SUFFIX
+
+    def walk_(x):
+        if isinstance(x, dict):
+            if x.get('k') == 'var' and x.get('name') == name:
+                x['name'] = new
+            if x.get('s') == 'do' and x.get('var') == name:
+                x['var'] = new
+            for v in x.values():
+                walk_(v)
+        elif isinstance(x, list):
+            for v in x:
+                walk_(v)
+    walk_(kernel['body'])
+    for d in kernel['decls']:
+        if d['name'] == name:
+            d['name'] = new
+    return p2
+
+
 def make_transform(table):
     def transform(text, prog, workdir):
         from loki import ir, FindNodes
@@ -237,11 +341,15 @@ def make_transform(table):
         otext = F.render(orig_prog)
         sf = parse(otext)
         routine = sf['kernel']
-        assigns = [a for a in FindNodes(ir.Assignment).visit(routine.body)]
-        target = assigns[k]
-        if target.source is None or not target.source.string.strip().endswith(before):
-            raise MachineryError(f'C03: statement correspondence lost: IR has {target.source.string if target.source else None!r}, spec has {before!r}')
-        apply_edit(routine, target, op)
+        for step in op.split('_'):
+            if step == 'rename':
+                apply_rename(routine, 'i')
+                continue
+            assigns = [a for a in FindNodes(ir.Assignment).visit(routine.body)]
+            target = assigns[k]
+            if target.source is None or not target.source.string.strip().endswith(before):
+                raise MachineryError(f'C03: statement correspondence lost: IR has {target.source.string if target.source else None!r}, spec has {before!r}')
+            apply_edit(routine, target, step)
         mark_units(sf, routine)
         return [('kmod.f90', sf.to_fortran(conservative=True))]
     return transform
@@ -313,6 +421,12 @@ def run(ctx):
             nedit = (3 if origin.startswith('generated') else 1) if quick else 4
             for _ in range(nedit):
                 edit_specs.append((origin, text, rng.choice(units), rng.randrange(1000), rng.choice(['replace', 'remove', 'subst'])))
+            # histories of two edits (and the single rename pass): a local replacement / removal and one SubstituteExpressions
+            # pass that changes the own expressions of containers, in both orders
+            two = [h for h in HISTORIES if 'rename' in h]
+            rng.shuffle(two)
+            for h in two[:(3 if origin.startswith('generated') else 1) if quick else 5]:
+                edit_specs.append((origin, text, rng.choice(units), rng.randrange(1000), h))
     edit_raised = 0
     for origin, text, unit, pick, op in edit_specs:
         try:
@@ -351,9 +465,23 @@ def run(ctx):
                               f"{pos} of the unit: original {a!r}, output {b!r}", payload)
             elif clause == 'valid-sound':
                 n_ = c['nodes'][pos - 1]
-                ctx.violation(f"valid-sound:{m['op']}:{m['kind']}:stays-valid:{n_['kind']}",
+                # key: the structural edit of the history (a removal that empties a parent is a known finding)
+                kop = next((x for x in m['op'].split('_') if x != 'rename'), 'rename')
+                ctx.violation(f"valid-sound:{kop}:{m['kind']}:stays-valid:{n_['kind']}",
                               f"{m['origin']}: after {m['op']} of a {m['kind']} ({m['target_text']!r}) in {m['unit']}, the enclosing {n_['kind']} "
                               f"(lines {n_['l0']}-{n_['l1']}) is still marked VALID although a node in its subtree was changed", payload)
+            elif clause == 'children-only':
+                n_ = c['nodes'][pos - 1]
+                ctx.violation(f"children-only:{m['op']}:{n_['kind']}",
+                              f"{m['origin']}: after the history {m['op']} in {m['unit']} the own expressions of the {n_['kind']} at lines "
+                              f"{n_['l0']}-{n_['l1']} were changed ({m['target_text']!r}) but it is marked INVALID_CHILDREN (interior properties "
+                              f"unchanged): {c['orig'][n_['l0'] - 1]!r}", payload)
+            elif clause == 'stale-header':
+                n_ = c['onodes'][pos - 1]
+                ctx.violation(f"stale-header:{m['op']}:{n_['kind']}",
+                              f"{m['origin']}: after the history {m['op']} in {m['unit']} ({m['target_text']!r}) the original first line of the "
+                              f"{n_['kind']} at lines {n_['l0']}-{n_['l1']}, whose own expressions were changed, is printed again: "
+                              f"{c['orig'][n_['l0'] - 1]!r}", payload)
             else:
                 n_ = c['nodes'][pos - 1]
                 exp = c['orig'][n_['l0'] - 1:n_['l1']]
@@ -365,7 +493,7 @@ def run(ctx):
                               f"still VALID but its original text is not in the conservative output (in order):\n" + '\n'.join(exp[:6]), payload)
     ctx.cover['unmodified_cases'] = n_unmod
     ctx.cover['edited_cases'] = len(cases) - n_unmod
-    ctx.cover['edits_by_op'] = {op: sum(1 for m in meta if m['op'] == op) for op in ('replace', 'remove', 'subst')}
+    ctx.cover['edits_by_op'] = {op: sum(1 for m in meta if m['op'] == op) for op in HISTORIES}
     ctx.cover['edit_raised'] = edit_raised
     ctx.cover['findings_by_clause'] = by_clause
     ctx.cover['repo_sources_skipped_need_cpp'] = skipped_cpp
@@ -394,6 +522,19 @@ def run(ctx):
                 table[id(p2)] = (prog, k, op, before)
                 p2_inputs = inputs
                 bcases.append((p2, p2_inputs))
+            # two-edit histories: the same local edit and the rename of the loop variable, in both orders, and the rename alone
+            for h in (('replace_rename', 'rename_remove', 'rename') if quick else [x for x in HISTORIES if 'rename' in x]):
+                try:
+                    first = next((x for x in h.split('_') if x != 'rename'), None)
+                    if first:
+                        p2, k, before = spec_edit(prog, rng.randrange(1000), first)
+                    else:
+                        p2, k, before = copy.deepcopy(prog), 0, ''
+                    p2 = spec_rename(p2)
+                except F.NotApplicable:
+                    continue
+                table[id(p2)] = (prog, k, h, before)
+                bcases.append((p2, inputs))
     if bcases:
         transform = make_transform(table)
         results, fails, legal = F.behaviour_check(ctx, 'conservative', bcases, transform)
@@ -412,6 +553,9 @@ def run(ctx):
         'right-hand side of one Assignment through SubstituteExpressions(invalidate_source=True) and put the result back with Transformer',
         'after `routine.body = ...` the enclosing program units and the file section are marked INVALID_CHILDREN by the harness, as '
         'loki/lint/utils.py (Fixer.fix_subroutine) and the repository tests do; the Transformer does not reach program units',
+        'histories of two edits: a replacement / removal and ONE SubstituteExpressions pass renaming a loop variable in specification '
+        'and body (changes the own expressions of loop headers / conditions), in both orders, and the rename alone; ChildrenOnly / '
+        'StaleHeader use the set of original nodes whose own image mentions the variable',
         'ValidEmitted only considers nodes whose recorded text is exactly their original lines (inline comments share a line)',
         'behaviour: MiniFortran programs (lib_fm), the edit (right-hand side -> literal, statement -> removed) is applied to the spec '
         'program as well; the conservative output must behave like the edited program (Trace_FMachine)',
@@ -446,7 +590,20 @@ def selftest(ctx):
     i1 = next(i for i, l in enumerate(c['out']) if l == '   a = 1'); i2 = next(i for i, l in enumerate(c['out']) if l == '   a = b')
     c['out'][i1], c['out'][i2] = c['out'][i2], c['out'][i1]
     b.append(('two VALID statements printed in the wrong order', c, 'valid-emitted'))
-    v = ctx.validate('Trace_SourceStatus', 'Trace_SourceStatus', [good_u, good_e] + [x[1] for x in b], shards=1)
+    src2 = "subroutine s(a, n)\ninteger, intent(inout) :: a(n)\ninteger :: n, i\n   do i = 1, n\n      a(i) = 1\n      a(i) = a(i) + 2\n   end do\nend subroutine s\n"
+    good_2, _m = edited_case(src2, 's', 0, 'replace_rename', 'selftest')
+    c = copy.deepcopy(good_2)
+    k = next(i for i, n in enumerate(c['nodes']) if n['kind'] == 'Loop')
+    c['nodes'][k]['st'] = 'INVALID_CHILDREN'
+    b.append(('loop whose header changed recorded as INVALID_CHILDREN (status not upgraded)', c, 'children-only'))
+    c = copy.deepcopy(good_2)
+    j = next(i for i, l in enumerate(c['out']) if l.strip().upper().startswith('DO '))
+    c['out'][j] = '   do i = 1, n'
+    b.append(('original loop header printed although the loop variable was renamed', c, 'stale-header'))
+    v = ctx.validate('Trace_SourceStatus', 'Trace_SourceStatus', [good_u, good_e, good_2] + [x[1] for x in b], shards=1)
+    if not v[2][0]:
+        raise MachineryError(f'selftest: the uncorrupted two-edit case is rejected: {v[2]}')
+    v = {**v, **{i: v[i + 1] for i in range(2, len(b) + 2)}}
     if not v[0][0] or not v[1][0]:
         raise MachineryError(f'selftest: an uncorrupted case is rejected: {v[0]} {v[1]}')
     missed = []
